@@ -18,6 +18,7 @@ import (
 // Phase is one batch of runs of one engine in one worker binary.
 type Phase struct {
 	Label      string
+	BinKind    string // recorded in replay files so that a replay picks the same kind of binary
 	Bin        string
 	Engine     string
 	Runs       uint64
@@ -57,10 +58,11 @@ type FoundViolation struct {
 	Seed   uint64
 	Index  uint64
 	Tape   []uint32
-	Engine string
-	Bin    string
-	Env    []string
-	Replay string // already written replay file (extra violations)
+	Engine  string
+	Bin     string
+	BinKind string
+	Env     []string
+	Replay  string // already written replay file (extra violations)
 }
 
 type KnownFinding struct {
@@ -226,7 +228,7 @@ func (c *Check) runPhase(p Phase) *phaseResult {
 						res.harness = append(res.harness, fmt.Sprintf("index %d seed %d: %s", o.Index, o.Seed, o.Harness))
 					}
 					for _, v := range o.Violations {
-						res.found = append(res.found, FoundViolation{V: v, Seed: o.Seed, Index: o.Index, Tape: o.Tape, Engine: p.Engine, Bin: p.Bin, Env: p.Env})
+						res.found = append(res.found, FoundViolation{V: v, Seed: o.Seed, Index: o.Index, Tape: o.Tape, Engine: p.Engine, Bin: p.Bin, BinKind: p.BinKind, Env: p.Env})
 					}
 					if o.Scenario != nil && len(res.samples) < 5 {
 						res.samples = append(res.samples, map[string]any{"seed": o.Seed, "index": o.Index, "scenario": o.Scenario, "faults": o.Faults, "probes": o.Probes})
@@ -237,7 +239,7 @@ func (c *Check) runPhase(p Phase) *phaseResult {
 			defer mu.Unlock()
 			if p.PostWorker != nil {
 				p.PostWorker(w, stderrTail, func(v Violation, idx uint64) {
-					res.found = append(res.found, FoundViolation{V: v, Index: idx, Seed: Mix(c.Seed, p.Engine, idx), Engine: p.Engine, Bin: p.Bin, Env: p.Env})
+					res.found = append(res.found, FoundViolation{V: v, Index: idx, Seed: Mix(c.Seed, p.Engine, idx), Engine: p.Engine, Bin: p.Bin, BinKind: p.BinKind, Env: p.Env})
 				})
 			}
 			if err != nil || !gotSummary {
@@ -247,7 +249,7 @@ func (c *Check) runPhase(p Phase) *phaseResult {
 					res.found = append(res.found, FoundViolation{
 						V: Violation{Property: c.Property, Class: "process-abort", Signature: "process-abort",
 							Detail: fmt.Sprintf("worker process died (%v) while executing run %d; stderr tail:\n%s", err, idx, stderrTail)},
-						Seed: Mix(c.Seed, p.Engine, idx), Index: idx, Engine: p.Engine, Bin: p.Bin, Env: p.Env})
+						Seed: Mix(c.Seed, p.Engine, idx), Index: idx, Engine: p.Engine, Bin: p.Bin, BinKind: p.BinKind, Env: p.Env})
 				} else {
 					res.harness = append(res.harness, fmt.Sprintf("worker %d failed before any run: %v\n%s", w, err, stderrTail))
 				}
@@ -420,13 +422,13 @@ func RunCheck(c *Check) int {
 		if path == "" {
 			path = filepath.Join(c.VerifDir, "replays", fmt.Sprintf("%s-%s-%d.json", fv.V.Property, sanitize(fv.V.Signature), fv.Index))
 			rf := ReplayFile{Property: fv.V.Property, Engine: fv.Engine, Class: fv.V.Class, Signature: fv.V.Signature, Seed: fv.Seed,
-				Index: fv.Index, Tape: fv.Tape, Violation: &fv.V, Repo: repoInfo(), Extra: map[string]any{"bin_env": fv.Env, "base_seed": c.Seed, "occurrences_in_batch": g.count}}
+				Index: fv.Index, Tape: fv.Tape, Violation: &fv.V, Repo: repoInfo(), Extra: map[string]any{"bin_env": fv.Env, "bin_kind": fv.BinKind, "base_seed": c.Seed, "occurrences_in_batch": g.count}}
 			if rf.Tape == nil && fv.V.Class != "process-abort" {
 				rf.Tape = []uint32{}
 			}
 			if fv.V.Class == "process-abort" || fv.Tape == nil {
 				// no recorded tape: regenerate by seed at replay time
-				rf.Extra = map[string]any{"bin_env": fv.Env, "base_seed": c.Seed, "replay_by_seed": true, "occurrences_in_batch": g.count}
+				rf.Extra = map[string]any{"bin_env": fv.Env, "bin_kind": fv.BinKind, "base_seed": c.Seed, "replay_by_seed": true, "occurrences_in_batch": g.count}
 			}
 			b, _ := json.MarshalIndent(rf, "", " ")
 			os.WriteFile(path, append(b, '\n'), 0o644)
